@@ -1839,7 +1839,8 @@ OCTET_STRING_compare(const asn_TYPE_descriptor_t *td, const void *aptr,
 
     if(a && b) {
         size_t common_prefix_size = a->size <= b->size ? a->size : b->size;
-        int ret = memcmp(a->buf, b->buf, common_prefix_size);
+        int ret = common_prefix_size
+                      ? memcmp(a->buf, b->buf, common_prefix_size) : 0;
         if(ret == 0) {
             /* Figure out which string with equal prefixes is longer. */
             if(a->size < b->size) {
